@@ -125,8 +125,16 @@ func ledgerStrata() []stratum {
 			c.Accounts = manyAccountsL(1100)
 			c.Assets = []string{"USD"}
 			c.Ladder = true
-			c.PLongSrc, c.PLongDst, c.PFunded, c.PRepeat, c.PNegBal = 70, 30, 90, 1, 50
+			c.PLongSrc, c.PLongDst, c.PFunded, c.PRepeat, c.PNegBal, c.POverdraft = 70, 30, 72, 1, 60, 60
 			c.Depth, c.Fanout, c.MinStmts, c.MaxStmts, c.PSave, c.PMetaStmt, c.PSendAll, c.PWorld, c.PVarAcct, c.PVarAmt = 1, 1100, 1, 2, 5, 0, 10, 2, 1, 5
+		}), 1},
+		{"ladder-debt", with(func(c *gen.LCfg) {
+			// the same ladder over accounts that are all in debt, every entry with a bounded overdraft
+			c.Accounts = manyAccountsL(1100)
+			c.Assets = []string{"USD"}
+			c.Ladder = true
+			c.PLongSrc, c.PFunded, c.PRepeat, c.PNegBal, c.POverdraft, c.PAbsent = 90, 0, 1, 100, 300, 2
+			c.Depth, c.Fanout, c.MinStmts, c.MaxStmts, c.PSave, c.PMetaStmt, c.PSendAll, c.PWorld, c.PVarAcct, c.PVarAmt, c.PBig = 1, 1100, 1, 2, 3, 0, 10, 2, 1, 5, 0
 		}), 1},
 		{"concat", with(func(c *gen.LCfg) {
 			// account and asset names whose concatenations coincide: userA + USD == user + AUSD
